@@ -186,10 +186,15 @@ CORPUS = [
     "ahist 1 3 1 w=32 esz=4 one=- ; astore 0 0 E 0 4 E 0 0 E 0 5 0 ; assume 0 2 C le E 1 -1 0 0 C le E 1 1 0 -8 ; arange 0 0 E 0 4 E 0 0 E 1 1 0 0 E 0 7 ; aload 0 1 0 E 0 4 E 0 0",
     # range store longer than max_array_size
     "ahist 1 3 1 w=32 esz=4 one=- ; astore 0 0 E 0 4 E 0 0 E 0 5 0 ; astore 0 0 E 0 4 E 0 12 E 0 5 0 ; arange 0 0 E 0 4 E 0 0 E 0 12 E 0 7 ; aload 0 1 0 E 0 4 E 0 12",
-    # copy from an array nothing is known about
+    # copy from an array whose contents are known on one joined branch only (fixes/arrays-2, arrays-4)
+    "ahist 3 3 2 w=32 esz=4,4 one=-,- ; ainit 0 1 E 0 4 E 0 0 E 0 12 E 0 7 ; join 2 0 1 ; ainit 2 0 E 0 4 E 0 0 E 0 12 E 0 5 ; acopy 2 0 1 ; aload 2 1 0 E 0 4 E 0 0",
+    "ahist 3 3 2 w=32 esz=4,4 one=-,- ; astore 0 1 E 0 4 E 0 0 E 0 9 0 ; join 2 0 1 ; astore 2 0 E 0 4 E 0 0 E 0 5 0 ; acopy 2 0 1 ; aload 2 1 0 E 0 4 E 0 0",
     "ahist 1 3 2 w=32 esz=4,4 one=-,- ; ainit 0 0 E 0 4 E 0 0 E 0 12 E 0 5 ; acopy 0 0 1 ; aload 0 1 0 E 0 4 E 0 0",
-    # copy over an array that has other cells
     "ahist 1 3 2 w=32 esz=4,4 one=-,- ; astore 0 0 E 0 4 E 0 0 E 0 5 0 ; astore 0 1 E 0 4 E 0 4 E 0 1 0 ; acopy 0 0 1 ; aload 0 1 0 E 0 4 E 0 0",
+    # symbolic load over a part of the array that the state does not track (fixes/arrays-5)
+    "ahist 3 3 1 w=32 esz=4 one=- ; astore 0 0 E 0 4 E 0 8 E 0 2 0 ; join 1 0 1 ; astore 1 0 E 0 4 E 0 12 E 0 1 0 ; aload 1 1 0 E 0 4 E 1 1 0 0",
+    # array operations on a bottom value (fixes/arrays-3)
+    "ahist 2 3 1 w=32 esz=4 one=- ; bot 0 ; astore 0 0 E 0 4 E 0 0 E 0 5 0 ; aload 0 1 0 E 0 4 E 0 0 ; arange 0 0 E 0 4 E 0 0 E 0 8 E 0 1 ; join 1 0 1",
     # symbolic store that cannot smash (array does not start at 0), store again, symbolic store again
     "ahist 1 3 1 w=32 esz=4 one=- ; astore 0 0 E 0 4 E 0 4 E 0 5 0 ; assume 0 2 C le E 1 -1 0 0 C le E 1 1 0 -8 ; astore 0 0 E 0 4 E 1 1 0 0 E 0 7 0 ; astore 0 0 E 0 4 E 0 4 E 0 9 0 ; astore 0 0 E 0 4 E 1 1 0 0 E 0 7 0 ; aload 0 1 0 E 0 4 E 0 4",
     # smashing: init, weak stores, load; strong store on a one-cell array
